@@ -165,6 +165,23 @@ func c16Corpus(e *fw.Env) []c16File {
 			out = append(out, c16File{Name: "mux/anim-" + fr.name, Data: append([]byte(nil), b2.Bytes()...), Package: true})
 		}
 	}
+	// canvases at the boundaries of the size fields: the VP8X canvas has 24 bits per side, the
+	// VP8 / VP8L picture headers 14, and every reader has its own idea of a limit
+	for _, c := range [][2]int{{1, 1}, {16383, 4}, {16384, 4}, {4, 16384}, {20000, 6}, {65535, 3}, {65536, 2}, {1 << 24, 1}, {2, 1 << 24}} {
+		m := mux.NewMuxer()
+		m.SetCanvasSize(c[0], c[1])
+		m.SetLoopCount(2)
+		fa, fb := c14FrameSet[2], c14FrameSet[0]
+		if c[0] < 4 || c[1] < 4 {
+			continue // the frame set's pictures are 4x4 and larger; 1x1 canvases come from the encoders
+		}
+		m.AddFrame(fa.data, &mux.FrameOptions{Duration: 30})
+		m.AddFrame(fb.data, &mux.FrameOptions{Duration: 40})
+		var b bytes.Buffer
+		if m.Assemble(&b) == nil {
+			out = append(out, c16File{Name: fmt.Sprintf("mux/anim-canvas-%dx%d", c[0], c[1]), Data: append([]byte(nil), b.Bytes()...), Package: true})
+		}
+	}
 	// encoder outputs, one per option class
 	for i, im := range c02Images {
 		src := imgs.Make(im.W, im.H, im.Content, im.Alpha, e.Seed)
@@ -254,6 +271,9 @@ func c16Check(f c16File) (verdict string) {
 	an, aerr := animation.DecodeBytes(data)
 	if ferr != nil || cerr != nil || xerr != nil || aerr != nil {
 		return fmt.Sprintf("well-formed file rejected by a container-level view: GetFeatures=%v DecodeConfig=%v Demuxer=%v animation.DecodeBytes=%v", ferr, cerr, xerr, aerr)
+	}
+	if an2, aerr2 := animation.Decode(noLen{bytes.NewReader(data)}); aerr2 != nil || an2.CanvasWidth != an.CanvasWidth || an2.CanvasHeight != an.CanvasHeight || len(an2.Frames) != len(an.Frames) || an2.LoopCount != an.LoopCount {
+		return fmt.Sprintf("animation.Decode(reader) and animation.DecodeBytes differ on the same bytes (error %v)", aerr2)
 	}
 	df := dmx.GetFeatures()
 	type view struct {
